@@ -127,6 +127,10 @@ func New(o Opts) *Node {
 	}
 	n.Cmds = clientpb.NewCommandCache(o.BatchSize)
 	n.CIO = server.NewClientIO(n.Loop, n.Log, n.Cmds)
+	// The harness calls ClientIO's handlers directly and never serves a listener. Stopping the (never
+	// started) gRPC server unregisters it from grpc's process-global channelz table, which would otherwise
+	// keep every replica ever built reachable (tens of GB over 10^6 executions).
+	n.CIO.Stop()
 	n.Commit = consensus.NewCommitter(n.Loop, n.Log, n.Chain, n.VS, n.Rules)
 	n.VM = votingmachine.New(n.Log, n.Loop, n.Cfg, n.Chain, n.Auth, n.VS)
 	n.Comm = comm.NewClique(n.Cfg, n.VM, n.Leader, o.Sender)
